@@ -154,34 +154,47 @@ def check_case(W, datamap, s):
             bad(f"get_one-or-get_data-raises/{type(e).__name__}", repr(e)[:100], "records")
     # GetFromAll: every type that has a configured Getter answers like its Getter; types routed to None yield nothing
     cfg = W.names[0]
-    try:
-        typed = unfold_search(s)
-        exp = []
-        for x in FindInAll().find(s):
-            if x.type in W.sources:   # constants-backed types have no Getter in the demo configuration
-                continue
-            exp.append(record(W, datamap, cfg, x.uri, x.string, None, "str"))
-        found_all = [(x.uri, x.string) for x in FindInAll().find(s) if x.type not in W.sources]
-        for attrs in ATTRS:
-            for enc in ENCS:
-                got = list(GetFromAll().get(s, attributes=attrs, sid_encode=enc_fn(enc)))
-                exp = [record(W, datamap, cfg, u, st, attrs, enc) for u, st in found_all]
-                got = json.loads(json.dumps(got, default=str))
-                exp = json.loads(json.dumps(exp, default=str))
-                if got != exp:
-                    sig = "get-from-all-differs"
-                    if sorted(map(json.dumps, got)) == sorted(map(json.dumps, exp)):
-                        sig += "/order"
-                    if len(got) > len(exp) and {json.dumps(g) for g in got} == {json.dumps(e) for e in exp}:
-                        sig += "/same-sid-returned-more-than-once"
-                    elif len(got) < len(exp):
-                        sig += "/records-missing"
-                    bad(sig, [attrs, enc, got[:4]], exp[:4])
-                    break
-    except SpilException:
-        pass
-    except Exception as e:  # noqa
-        bad(f"get-from-all-raises/{type(e).__name__}", repr(e)[:100], "records")
+    for prelude in (False, True):
+        sfx = ""
+        if prelude:
+            # GetFromAll objects made with a configuration name are asked first, from cold singletons (last configuration first):
+            # what GetFromAll() answers afterwards is still the default configuration's data
+            from mc import env
+            env.reset()
+            sfx = "/after-GetFromAll(config)"
+            for n in reversed(W.names):
+                try:
+                    list(GetFromAll(n).get(s))
+                except Exception:  # noqa
+                    pass
+        try:
+            typed = unfold_search(s)
+            exp = []
+            for x in FindInAll().find(s):
+                if x.type in W.sources:   # constants-backed types have no Getter in the demo configuration
+                    continue
+                exp.append(record(W, datamap, cfg, x.uri, x.string, None, "str"))
+            found_all = [(x.uri, x.string) for x in FindInAll().find(s) if x.type not in W.sources]
+            for attrs in ATTRS:
+                for enc in ENCS:
+                    got = list(GetFromAll().get(s, attributes=attrs, sid_encode=enc_fn(enc)))
+                    exp = [record(W, datamap, cfg, u, st, attrs, enc) for u, st in found_all]
+                    got = json.loads(json.dumps(got, default=str))
+                    exp = json.loads(json.dumps(exp, default=str))
+                    if got != exp:
+                        sig = "get-from-all-differs"
+                        if sorted(map(json.dumps, got)) == sorted(map(json.dumps, exp)):
+                            sig += "/order"
+                        if len(got) > len(exp) and {json.dumps(g) for g in got} == {json.dumps(e) for e in exp}:
+                            sig += "/same-sid-returned-more-than-once"
+                        elif len(got) < len(exp):
+                            sig += "/records-missing"
+                        bad(sig + sfx, [attrs, enc, got[:4]], exp[:4])
+                        break
+        except SpilException:
+            pass
+        except Exception as e:  # noqa
+            bad(f"get-from-all-raises/{type(e).__name__}" + sfx, repr(e)[:100], "records")
     return out, ("found" if found_any else "nothing-found")
 
 
